@@ -97,6 +97,10 @@ theorem Conv.mem_all (c : Conv) : c ∈ Conv.all := by cases c <;> decide
 theorem typed_core : ∀ c ∈ Conv.all, ∀ ch, ch < 123 → IsTyped ch → toUni c (fromUni c ch) = ch := by
   decide +kernel
 
+/-- "the emulation's code": where code `ch` displays as character `ch`, that is the code the key sends -/
+theorem typed_code_core : ∀ c ∈ Conv.all, ∀ ch, ch < 123 → IsTyped ch → toUni c ch = ch → fromUni c ch = ch := by
+  decide +kernel
+
 theorem typedChars_spec : ∀ ch, ch < 123 → (ch ∈ typedChars ↔ IsTyped ch) := by decide +kernel
 
 end IcyVerif.Codec
